@@ -30,6 +30,13 @@ pub fn init(property: &str, tier: crate::report::Tier) {
     if let Some(mb) = std::env::var("CVX_MEM_LIMIT_MB").ok().and_then(|x| x.parse::<usize>().ok()) {
         LIMIT.store(mb << 20, Ordering::Relaxed);
     }
+    // backstop for allocations the counter cannot see (C++ side of the embedded SAT solver): the
+    // process dies with an allocation failure instead of taking the machine down
+    let gb = std::env::var("CVX_AS_LIMIT_GB").ok().and_then(|x| x.parse::<u64>().ok()).unwrap_or(44);
+    unsafe {
+        let r = libc::rlimit { rlim_cur: gb << 30, rlim_max: gb << 30 };
+        libc::setrlimit(libc::RLIMIT_AS, &r);
+    }
     let b = property.as_bytes();
     if b.len() == 3 && b[0] == b'C' && b[1].is_ascii_digit() && b[2].is_ascii_digit() {
         let _ = CONTEXT.set((property.to_string(), tier));
